@@ -22,6 +22,7 @@ import (
 func init() {
 	mon.Register(&mon.Check{
 		ID:        "C18",
+		Boost:     12,
 		Batches:   func(tier string) int { return 16 },
 		Run:       runC18,
 		Technique: "taint-token runtime monitor: every login presents a unique random password token and every scope has a unique random secret token; an injected logger records all rendered messages, Record maps minus the keys the call marks as obscured and the fields selected for retention, and forwards to the stock cmds/server/log.Logger at debug level writing to a buffer; everything captured is searched for the tokens (plain, %q, hex, base64)",
